@@ -532,7 +532,17 @@ DynArray* dyn_array_push_struct(DynArray* arr, const void* struct_ptr, size_t st
     assert(arr->elem_size == struct_size && "DynArray: Struct size mismatch");
     
     if (arr->length >= arr->capacity) {
+        /* The struct may be an element of this very array
+         * ((array_push a (at a 0))): growing moves the storage, so find it
+         * again by its offset. */
+        uintptr_t base = (uintptr_t)arr->data;
+        uintptr_t src = (uintptr_t)struct_ptr;
+        bool own = arr->data != NULL && src >= base &&
+                   src < base + (uintptr_t)arr->length * arr->elem_size;
         dyn_array_grow(arr);
+        if (own) {
+            struct_ptr = (const uint8_t*)arr->data + (src - base);
+        }
     }
     
     /* Copy struct into array */
